@@ -30,7 +30,7 @@ ANCHORS = [
     ("tangelo/toolboxes/operators/multiformoperator.py", "from_qubitop,__mul__,collapse", "integer/binary encodings, phase table, duplicate collapse"),
     ("tangelo/toolboxes/operators/multiformoperator.py", "do_commute", "symplectic commutation test"),
 ]
-REQUIRED = {"fermion_value": 196, "fermion_operands_unchanged": 300, "qubit_value": 111, "qubit_operands_unchanged": 200, "chain_shadow": 200, "hamiltonian_with_plain_operator": 17, "multiform_product": 60, "multiform_collapse": 60, "do_commute": 64, "do_commute_term_resolved": 64}
+REQUIRED = {"live_observations_total": 5, "fermion_value": 196, "fermion_operands_unchanged": 300, "qubit_value": 111, "qubit_operands_unchanged": 200, "chain_shadow": 200, "hamiltonian_with_plain_operator": 17, "multiform_product": 60, "multiform_collapse": 60, "do_commute": 64, "do_commute_term_resolved": 64}
 BUDGET = {"quick": 240, "thorough": 2400}
 TOL = 1e-9
 NM = 3   # fermionic modes for dense algebra (8x8)
@@ -39,7 +39,8 @@ NQ = 3
 
 def cases(tier, seed):
     n = 160 if tier == "quick" else 6000
-    out = [{"sub": "fermion", "i": i} for i in range(n)]
+    out = [{"sub": "repo_tests", "tier": tier}]
+    out += [{"sub": "fermion", "i": i} for i in range(n)]
     out += [{"sub": "qubit", "i": i} for i in range(n)]
     out += [{"sub": "multiform", "i": i} for i in range(n)]
     return out
@@ -405,5 +406,20 @@ def run_multiform(case, ctx):
     ctx.sample({"sub": "multiform", "n": n, "A_terms": len(ta), "B_terms": len(tb)})
 
 
+def run_repo_tests(case, ctx):
+    """The repository's own operator / ansatz tests as an additional workload for the operand-snapshot monitors."""
+    from vlib.harness import run_repo_tests_under_monitors
+    if case["tier"] == "quick":
+        paths = ["tangelo/toolboxes/operators/tests/test_operators.py", "tangelo/toolboxes/ansatz_generator/tests/test_penalty_terms.py",
+                 "tangelo/toolboxes/ansatz_generator/tests/test_fermionic_operators.py"]
+        workers = 1
+    else:
+        paths = ["tangelo/toolboxes/operators/tests", "tangelo/toolboxes/ansatz_generator/tests", "tangelo/toolboxes/qubit_mappings/tests"]
+        workers = 6
+    n = run_repo_tests_under_monitors(ctx, paths, "live_", workers=workers, only=("FermionOperator", "QubitHamiltonian"))
+    ctx.nontrivial(("repo_tests", tuple(paths)))
+    ctx.sample({"sub": "repo_tests", "paths": paths, "monitor_observations": n})
+
+
 def run_case(case, ctx):
-    {"fermion": run_fermion, "qubit": run_qubit, "multiform": run_multiform}[case["sub"]](case, ctx)
+    {"fermion": run_fermion, "qubit": run_qubit, "multiform": run_multiform, "repo_tests": run_repo_tests}[case["sub"]](case, ctx)
